@@ -26,9 +26,10 @@ def variablesAreInputTypes : Rule :=
        | none => [])
     | _ => []
 
-/-- `Scope` of the three graph-walking variable rules: keyed by operation *name* / fragment name -/
+/-- `Scope` of the three graph-walking variable rules: an operation (told apart by its index in
+    the document; the name is carried along for the messages) or a fragment name -/
 inductive Scope where
-  | op (n : Option Name)
+  | op (i : Nat) (n : Option Name)
   | frag (n : Name)
   deriving DecidableEq, Repr, Inhabited
 
@@ -44,18 +45,28 @@ def reachScopes (spreads : List (Scope × List Name)) (fuel : Nat) (sc : Scope) 
 def spreadFuel (spreads : List (Scope × List Name)) : Nat :=
   (spreads.map fun p => p.2.length).sum + 2
 
-structure VarState where
+/-- The bookkeeping the three graph-walking variable rules share: the current scope, per scope
+    the fragments spread and the items of interest met there (`ι`: variable names used in
+    arguments / `(variable, expected type)` usages), per operation its variable definitions. -/
+structure Coll (ι : Type) where
   scope : Option Scope := none
-  defined : List (Option Name × List Name) := []    -- HashMap<Option<&str>, HashSet<&str>>
-  used : List (Scope × List Name) := []             -- HashMap<Scope, Vec<&str>>
-  spreads : List (Scope × List Name) := []          -- HashMap<Scope, Vec<&str>>
+  ops : Nat := 0                                              -- operations_count
+  spreads : List (Scope × List Name) := []                    -- HashMap<Scope, Vec<&str>>
+  items : List (Scope × List ι) := []                         -- HashMap<Scope, Vec<..>>
+  defs : List ((Nat × Option Name) × List VarDef) := []       -- per operation, in document order
   deriving Inhabited
 
-/-- the five collecting handlers, identical in both rules -/
-def VarState.on (st : VarState) (e : Ev) : VarState :=
-  match e with
+/-- `map.entry(scope).or_default().append(items)`, not touching the map when there is nothing to add -/
+def Coll.addItems {ι : Type} (st : Coll ι) (sc : Scope) (its : List ι) : Coll ι :=
+  match its with
+  | [] => st
+  | its => { st with items := alUpdate st.items sc [] (· ++ its) }
+
+/-- the collecting handlers; `itemsOf` says what a callback contributes to its scope -/
+def Coll.on {ι : Type} (itemsOf : Ev × Snap → List ι) (st : Coll ι) (e : Ev × Snap) : Coll ι :=
+  match e.1 with
   | .enter (.operation o) =>
-    { st with scope := some (.op o.name), defined := alInsert st.defined o.name [] }
+    { st with scope := some (.op st.ops o.name), ops := st.ops + 1, defs := st.defs ++ [((st.ops, o.name), [])] }
   | .enter (.fragmentDef f) => { st with scope := some (.frag f.name) }
   | .enter (.spread sp) =>
     (match st.scope with
@@ -63,53 +74,60 @@ def VarState.on (st : VarState) (e : Ev) : VarState :=
      | none => st)
   | .enter (.varDef v) =>
     (match st.scope with
-     | some (.op n) =>
-       if (alGet st.defined n).isSome then
-         { st with defined := alUpdate st.defined n [] fun vs => if vs.contains v.name then vs else vs ++ [v.name] }
-       else st
+     | some (.op i n) => { st with defs := alUpdate st.defs (i, n) [] (· ++ [v]) }
      | _ => st)
-  | .enter (.argument a) =>
+  | _ =>
     (match st.scope with
-     | some sc => { st with used := alUpdate st.used sc [] (· ++ a.2.variablesInUse) }
+     | some sc => st.addItems sc (itemsOf e)
      | none => st)
-  | _ => st
 
-/-- all variables used in the scopes reachable from operation `n` -/
-def VarState.usedFrom (st : VarState) (n : Option Name) : List Name :=
-  let r := reachScopes st.spreads (spreadFuel st.spreads) (.op n) {}
-  r.visited.flatMap fun sc => (alGet st.used sc).getD []
+/-- the scopes reachable from operation `k` through fragment spreads -/
+def Coll.reach {ι : Type} (st : Coll ι) (k : Nat × Option Name) : List Scope :=
+  (reachScopes st.spreads (spreadFuel st.spreads) (.op k.1 k.2) {}).visited
 
-def noUnusedVariables : Rule where
-  σ := VarState
+/-- all items met in the scopes reachable from operation `k` -/
+def Coll.itemsFrom {ι : Type} (st : Coll ι) (k : Nat × Option Name) : List ι :=
+  (st.reach k).flatMap fun sc => (alGet st.items sc).getD []
+
+/-- variables used in an argument value -/
+def argVars (e : Ev × Snap) : List Name :=
+  match e.1 with
+  | .enter (.argument a) => a.2.variablesInUse
+  | _ => []
+
+/-- a variable met where the context expects an input type -/
+def varUsage (e : Ev × Snap) : List (Name × Ty) :=
+  match e.1, e.2.inpLit with
+  | .enter (.variable vn), some t => [(vn, t)]
+  | _, _ => []
+
+def definedNames (defs : List VarDef) : List Name := (defs.map (·.name)).eraseDups
+
+def unusedReport (st : Coll Name) : List Err :=
+  st.defs.flatMap fun p =>
+    let used := st.itemsFrom p.1
+    ((definedNames p.2).filter fun v => !used.contains v).map fun v => ⟨.noUnusedVariables, [], .unusedVariable v p.1.2⟩
+
+/-- a rule that collects with `Coll.on` and reports at the end of the document -/
+def collRule {ι : Type} (itemsOf : Ev × Snap → List ι) (report : Schema → Coll ι → List Err) : Rule where
+  σ := Coll ι
   init := {}
-  on := fun _ _ st e =>
+  on := fun s _ st e =>
     match e.1 with
-    | .leave (.document _) =>
-      (st, st.defined.flatMap fun (n, defs) =>
-        let used := st.usedFrom n
-        (defs.filter fun v => !used.contains v).map fun v => ⟨.noUnusedVariables, [], .unusedVariable v n⟩)
-    | ev => (st.on ev, [])
+    | .leave (.document _) => (st, report s st)
+    | _ => (st.on itemsOf e, [])
 
-def noUndefinedVariables : Rule where
-  σ := VarState
-  init := {}
-  on := fun _ _ st e =>
-    match e.1 with
-    | .leave (.document _) =>
-      (st, st.defined.flatMap fun (n, defs) =>
-        let used := st.usedFrom n
-        ((used.filter fun v => !defs.contains v).eraseDups).map fun v =>
-          ⟨.noUndefinedVariables, [], .undefinedVariable v n⟩)
-    | ev => (st.on ev, [])
+def noUnusedVariables : Rule := collRule argVars fun _ => unusedReport
+
+def undefinedReport (st : Coll Name) : List Err :=
+  st.defs.flatMap fun p =>
+    let used := st.itemsFrom p.1
+    ((used.filter fun v => !(definedNames p.2).contains v).eraseDups).map fun v =>
+      ⟨.noUndefinedVariables, [], .undefinedVariable v p.1.2⟩
+
+def noUndefinedVariables : Rule := collRule argVars fun _ => undefinedReport
 
 /-! ### variables_in_allowed_position -/
-
-structure VipState where
-  scope : Option Scope := none
-  spreads : List (Scope × List Name) := []            -- HashMap<Scope, HashSet<&str>>
-  usages : List (Scope × List (Name × Ty)) := []
-  varDefs : List (Scope × List VarDef) := []
-  deriving Inhabited
 
 /-- the variable's type, made non-null when it has a non-null default (after the F12 fix) -/
 def effectiveVarType (v : VarDef) : Ty :=
@@ -118,39 +136,18 @@ def effectiveVarType (v : VarDef) : Ty :=
   | some dv, .named n => (match dv with | .null => .named n | _ => .nonNull (.named n))
   | _, t => t
 
-def vipErrors (s : Schema) (st : VipState) (defs : List VarDef) (sc : Scope) : List Err :=
-  ((alGet st.usages sc).getD []).flatMap fun (vn, locTy) =>
-    match defs.find? (fun vd => vd.name == vn) with
-    | some vd =>
-      let expected := effectiveVarType vd
-      if !s.isSubtype expected locTy then
-        [⟨.variablesInAllowedPosition, [vd.pos], .badVariablePosition vn expected locTy⟩]
-      else []
-    | none => []
+/-- the check of one usage against the operation's definitions -/
+def vipCheck (s : Schema) (defs : List VarDef) (u : Name × Ty) : List Err :=
+  match defs.find? (fun vd => vd.name == u.1) with
+  | some vd =>
+    if !s.isSubtype (effectiveVarType vd) u.2 then
+      [⟨.variablesInAllowedPosition, [vd.pos], .badVariablePosition u.1 (effectiveVarType vd) u.2⟩]
+    else []
+  | none => []
 
-def variablesInAllowedPosition : Rule where
-  σ := VipState
-  init := {}
-  on := fun s _ st e =>
-    match e.1 with
-    | .leave (.document _) =>
-      (st, st.varDefs.flatMap fun (sc, defs) =>
-        let r := reachScopes st.spreads (spreadFuel st.spreads) sc {}
-        r.visited.flatMap (vipErrors s st defs))
-    | .enter (.fragmentDef f) => ({ st with scope := some (.frag f.name) }, [])
-    | .enter (.operation o) => ({ st with scope := some (.op o.name) }, [])
-    | .enter (.spread sp) =>
-      (match st.scope with
-       | some sc => ({ st with spreads := alUpdate st.spreads sc [] fun l => if l.contains sp.name then l else l ++ [sp.name] }, [])
-       | none => (st, []))
-    | .enter (.varDef v) =>
-      (match st.scope with
-       | some sc => ({ st with varDefs := alUpdate st.varDefs sc [] (· ++ [v]) }, [])
-       | none => (st, []))
-    | .enter (.variable vn) =>
-      (match st.scope, e.2.inpLit with
-       | some sc, some t => ({ st with usages := alUpdate st.usages sc [] (· ++ [(vn, t)]) }, [])
-       | _, _ => (st, []))
-    | _ => (st, [])
+def vipReport (s : Schema) (st : Coll (Name × Ty)) : List Err :=
+  st.defs.flatMap fun p => (st.itemsFrom p.1).flatMap (vipCheck s p.2)
+
+def variablesInAllowedPosition : Rule := collRule varUsage vipReport
 
 end Gql
